@@ -181,7 +181,17 @@ where
             return; // entry should have been created in `new_connection_handler`
         };
 
+        let full = msg.wantlist.full;
         let (additions, removals) = wantlist.process_wantlist(msg.wantlist);
+
+        // Blocks can be added in the blockstore without us knowing about it. A full
+        // wantlist is sent periodically, so use it to look up again every CID the peer
+        // still waits for, not just the new ones.
+        let lookups = if full {
+            wantlist.0.iter().copied().collect()
+        } else {
+            additions.clone()
+        };
 
         debug!(
             "updating local wantlist for {peer}: added {}, removed {}",
@@ -203,7 +213,7 @@ where
                 .or_default()
                 .push(peer.clone());
         }
-        self.schedule_store_get(peer.clone(), additions);
+        self.schedule_store_get(peer.clone(), lookups);
     }
 
     pub(crate) fn new_blocks_available(&mut self, blocks: Vec<BlockWithCid<S>>) {
